@@ -53,18 +53,19 @@ def run(R):
                 text = c07.blind(rng, text)
             opts = rng.choice([[], [b"-R"], [b"-N"], [b"-f"], [b"-F", b"2147483647"], [b"-l"]])
             jobs.append(dict(cut=R.cut, tree=drv.tree_with_patch(A, text), argv=opts + [b"-p1", b"-i", drv.PATCHNAME], timeout=10))
-            meta.append((text, opts))
+            meta.append((text, opts, jobs[-1]["tree"]))
     finally:
         P.close()
     t0 = time.time()
     res = drv.run_many(jobs)
     slow = 0
-    for (text, opts), r in zip(meta, res):
+    for (text, opts, tree_), r in zip(meta, res):
         R.evaluations += 1; R.nontrivial.add(hash((text, tuple(opts))))
         data = {"patch_hex": text.hex(), "argv": [a.decode() for a in opts] + ["-p1", "-i", "__patch.diff"], "wall_s": round(r.wall, 2), "exit": r.exit}
         if r.timeout:
             R.oracle_fail(f"patch did not terminate within 10 s on a {len(text)} byte patch", data)
-        elif r.wall > 2.0:
+        elif r.wall > 2.0 and box.run(R.cut, tree_, opts + [b"-p1", b"-i", drv.PATCHNAME], timeout=30).wall > 2.0:
+            # (measured again alone: the first measurement was taken with 15 other runs in flight)
             slow += 1
             R.oracle_fail(f"patch needed {r.wall:.1f} s for a {len(text)} byte patch and a small target (running time depends on a number written in the patch?)", data)
     R.dist["driver runs"] = {"n": len(jobs), "slow": slow, "max_wall_s": round(max(r.wall for r in res), 3), "batch_wall_s": round(time.time() - t0, 1)}
